@@ -632,3 +632,134 @@ func c11r9(c *RC) {
 	}
 	c.Floor("columns bound by newData in package frame", n, 3)
 }
+
+// C03-R7: the task's wait channel is retired only by Broadcast.
+//
+// Task.Wait parks every waiter of a task on one shared channel (waitc) that
+// Broadcast closes and clears.  A waiter that clears the field itself (for
+// instance when it gives up on a cancelled context) strands the other
+// waiters: the next Broadcast finds nil, closes nothing, and an evaluation
+// that only waits for that task never learns that it finished, was lost or
+// failed (seed C03-c3).  Decided as ownership: every assignment of nil to
+// Task.waitc follows close() of that channel in the same block, and every
+// other assignment is a fresh channel made under a test that the field is nil.
+func c03r7(c *RC) {
+	pr := c.P
+	n := 0
+	for _, fn := range pr.FuncsIn("exec") {
+		if fn.Body == nil {
+			continue
+		}
+		fq := fn.QName()
+		ast.Inspect(fn.Body, func(nd ast.Node) bool {
+			blk, ok := nd.(*ast.BlockStmt)
+			if !ok {
+				return true
+			}
+			for i, st := range blk.List {
+				as, ok := st.(*ast.AssignStmt)
+				if !ok || len(as.Lhs) != 1 || len(as.Rhs) != 1 {
+					continue
+				}
+				se, ok := as.Lhs[0].(*ast.SelectorExpr)
+				if !ok || pr.fieldQName(fn.Pkg.FieldOf(se)) != "exec.Task.waitc" {
+					continue
+				}
+				n++
+				target := nospace(se)
+				if tv, ok := fn.Pkg.Info.Types[as.Rhs[0]]; ok && tv.IsNil() {
+					closed := false
+					for j := 0; j < i; j++ {
+						if es, ok := blk.List[j].(*ast.ExprStmt); ok {
+							if k, ok := es.X.(*ast.CallExpr); ok && expr(k.Fun) == "close" && len(k.Args) == 1 && nospace(k.Args[0]) == target {
+								closed = true
+							}
+						}
+					}
+					c.Check(closed, fq+"|wait-channel-cleared-only-after-close", pr.Pos(as.Pos()),
+						strings.TrimPrefix(fq, "exec.")+" clears the task's wait channel without closing it: the channel is shared by every waiter of the task, so the waiters still parked on it miss the next Broadcast — an evaluation waiting only for this task hangs although the task finished, was lost or failed")
+					continue
+				}
+				// a fresh channel, only when there is none
+				k, isMake := ast.Unparen(as.Rhs[0]).(*ast.CallExpr)
+				fresh := isMake && expr(k.Fun) == "make"
+				isNil := func(e ast.Expr) (bool, bool) {
+					if x, nonNil, ok := nilTest(e); ok && nospace2(x) == target {
+						return nonNil, true // scenario: the field is non-nil
+					}
+					return false, false
+				}
+				c.Check(fresh && excludedBy(guardsAt(fn, as), isNil), fq+"|wait-channel-made-only-when-absent", pr.Pos(as.Pos()),
+					strings.TrimPrefix(fq, "exec.")+" replaces the task's wait channel while waiters may be parked on the old one (the new value is not a fresh channel made under a test that the field is nil): those waiters are never woken")
+			}
+			return true
+		})
+	}
+	c.Floor("writes of Task.waitc", n, 2)
+}
+
+func nospace2(s string) string { return strings.ReplaceAll(s, " ", "") }
+
+// C20-R5: a result's counters are the sum over *every* task behind it.
+//
+// (*Result).Scope merges the scope of each task reachable from the result's
+// tasks, once (sync.Once).  The merge must be unconditional inside the
+// visitor: a task that is not OK right now (discarded, lost, being recomputed)
+// still holds the counters of the run that computed the result, and because of
+// the Once a total taken while it is excluded is wrong for ever (seed C20-c2).
+func c20r5(c *RC) {
+	pr := c.P
+	fn := c.MustFn("exec.(*Result).Scope")
+	if fn == nil {
+		return
+	}
+	fq := fn.QName()
+	n := 0
+	for _, lit := range allLits(fn) {
+		for _, k := range callsIn(lit.Body) {
+			if lit.Pkg.CalleeName(k) != "metrics.(*Scope).Merge" {
+				continue
+			}
+			// only calls directly in this literal
+			inner := false
+			for _, l2 := range lit.Lits {
+				if l2.Body.Pos() <= k.Pos() && k.End() <= l2.Body.End() {
+					inner = true
+				}
+			}
+			if inner {
+				continue
+			}
+			n++
+			gs := guardsAt(lit, k)
+			c.Check(len(gs) == 0, fq+"|every-task-is-merged", pr.Pos(k.Pos()),
+				"(*Result).Scope merges a task's scope only under a condition ("+condList(gs)+"): a task that is discarded, lost or being recomputed at the moment of the first Scope call is left out of the total, and sync.Once keeps that total — the counters reported for the result are no longer the sum of the increments performed while computing it")
+		}
+	}
+	c.Floor("task scope merges in (*Result).Scope", n, 1)
+}
+
+func condList(gs []guardAt) string {
+	var out []string
+	for _, g := range gs {
+		t := expr(g.cond)
+		if !g.val {
+			t = "!(" + t + ")"
+		}
+		out = append(out, t)
+	}
+	return strings.Join(out, ", ")
+}
+
+func allLits(fn *Func) []*Func {
+	var out []*Func
+	var walk func(f *Func)
+	walk = func(f *Func) {
+		for _, l := range f.Lits {
+			out = append(out, l)
+			walk(l)
+		}
+	}
+	walk(fn)
+	return out
+}
